@@ -1042,6 +1042,8 @@ package server
 
 //@ unit (*Dataset).StartFullSync
 //@   prop C09 C08
+//@   ensures [no-lease-without-a-running-sync] !ds.fullSyncStarted ==> ds.fullSyncLease == nil
+//@   frame-assumed preserves Dataset.store, Dataset.ID, Dataset.InternalID, Store.*
 //@   requires ds != nil
 //@   requires-inv [existing-objects] foreign(ds.fullSyncSeen)
 //@   ensures [started] result == nil && ds.fullSyncStarted
@@ -1052,14 +1054,43 @@ package server
 
 //@ unit (*Dataset).RefreshFullSyncLease
 //@   prop C09
+//@   requires-inv [no-lease-without-a-running-sync] ds != nil ==> (!ds.fullSyncStarted ==> ds.fullSyncLease == nil)
+//@   ensures [no-lease-without-a-running-sync] !ds.fullSyncStarted ==> ds.fullSyncLease == nil
+//@   frame-assumed preserves Dataset.store, Dataset.ID, Dataset.InternalID, Store.*, map[uint64]int
 //@   requires ds != nil && ds.store != nil
 //@   ensures [foreign-id-rejected-without-effect] ds.fullSyncStarted && fullSyncID != ds.fullSyncID ==> result != nil
 //@   ensures [state-unchanged-on-rejection] result != nil ==> ds.fullSyncStarted == old(ds.fullSyncStarted) && ds.fullSyncID == old(ds.fullSyncID) && ds.fullSyncSeen == old(ds.fullSyncSeen) && ds.fullSyncLease == old(ds.fullSyncLease)
 //@   ensures [id-without-running-sync-rejected] !old(ds.fullSyncStarted) && fullSyncID != "" ==> result != nil
 //@   ensures [matching-refresh-keeps-the-sync] old(ds.fullSyncStarted) && fullSyncID == old(ds.fullSyncID) ==> result == nil && ds.fullSyncStarted && ds.fullSyncID == old(ds.fullSyncID) && ds.fullSyncSeen == old(ds.fullSyncSeen) && ds.fullSyncLease != nil
+//@   ensures [accepted-refresh-leaves-the-seen-set-alone] result == nil ==> ds.fullSyncStarted == old(ds.fullSyncStarted) && ds.fullSyncSeen == old(ds.fullSyncSeen) && ds.fullSyncID == old(ds.fullSyncID)
 //@   dyncall cancel pure
 //@   at call cancel#1 before
 //@     assert [C09:lease-cancelled-only-for-the-sync-that-owns-it] ds.fullSyncStarted && fullSyncID == ds.fullSyncID
+
+//@ unit (*Dataset).StartFullSyncWithLease
+//@   prop C09
+//@   frame-assumed preserves Dataset.store, Dataset.ID, Dataset.InternalID, Store.*, map[uint64]int
+//@   ensures [no-lease-without-a-running-sync] !ds.fullSyncStarted ==> ds.fullSyncLease == nil
+//@   requires ds != nil && ds.store != nil
+//@   requires-inv [existing-objects] foreign(ds.fullSyncSeen)
+//@   ensures [a-started-sync-carries-the-id-of-the-request-that-started-it] result == nil ==> ds.fullSyncStarted && ds.fullSyncID == fullSyncID && ds.fullSyncLease != nil && ds.fullSyncSeen != nil && (forall k uint64 :: !has(ds.fullSyncSeen, k))
+
+//@ unit (*Dataset).ReleaseFullSyncLease
+//@   prop C09
+//@   frame-assumed preserves Dataset.store, Dataset.ID, Dataset.InternalID, Store.*, map[uint64]int
+//@   requires-inv [no-lease-without-a-running-sync] ds != nil ==> (!ds.fullSyncStarted ==> ds.fullSyncLease == nil)
+//@   ensures [no-lease-without-a-running-sync] !ds.fullSyncStarted ==> ds.fullSyncLease == nil
+//@   ensures [lease-unchanged] ds.fullSyncLease == old(ds.fullSyncLease)
+//@   requires ds != nil
+//@   ensures [releasing-the-lease-leaves-the-sync-state-alone] ds.fullSyncStarted == old(ds.fullSyncStarted) && ds.fullSyncID == old(ds.fullSyncID) && ds.fullSyncSeen == old(ds.fullSyncSeen)
+//@   ensures [no-lease-no-completion] old(ds.fullSyncLease) == nil ==> result != nil
+//@   dyncall cancel pure
+
+//@ unit (*Dataset).FullSyncStarted
+//@   prop C09
+//@   requires ds != nil
+//@   ensures [reports-the-sync-flag] result == ds.fullSyncStarted
+//@   modifies none
 
 //@ assumed (*Dataset).MapEntities
 //@   preserves Dataset.fullSyncStarted, Dataset.fullSyncSeen, Dataset.fullSyncID, Dataset.fullSyncLease, Dataset.store, map[uint64]int
